@@ -13,7 +13,7 @@ from typing import Dict, List, Optional
 from ..algebra import Rat, to_rat
 from ..index import AnalysisError, call_name, dotted, norm, norm1, names_in
 from ..sem import Sem, bind_target, inline_private_helpers, list_elements
-from .common import calls, enclosing, enclosing_all, fctx, in_body, is_name, method_calls, stmts, store_targets
+from .common import const_of, calls, enclosing, enclosing_all, fctx, in_body, is_name, method_calls, stmts, store_targets
 from .spin import chain_parts, channel_of_name
 
 LEVEL = "other"
@@ -159,8 +159,17 @@ def run(ctx) -> None:
                  f"reproduce the input systems")
         if lp_ is not None:
             it = norm(lp_.iter)
-            r1.check(it in ("self.system0._XX_R", "self.system0._XX_R.keys()", "self.system1._XX_R", "self.system1._XX_R.keys()", "self.system0._XX_R.items()",
-                            "self.system1._XX_R.items()"),
+            common_attr = False
+            if isinstance(lp_.iter, ast.Attribute) and isinstance(lp_.iter.value, ast.Name) and lp_.iter.value.id == "self":
+                # an attribute that __init__ sets to the keys present in both systems
+                ini0 = cls.methods["__init__"]
+                IS0 = Sem(idx, ini0)
+                for a_ in stmts(ini0.node):
+                    if isinstance(a_, ast.Assign) and len(a_.targets) == 1 and norm(a_.targets[0]) == it:
+                        src_ = IS0.rnorm(a_.value, IS0.cfg.node(a_))
+                        common_attr = "self.system0._XX_R" in src_ and "self.system1._XX_R" in src_ and ("intersection" in src_ or " & " in src_)
+            r1.check(common_attr or it in ("self.system0._XX_R", "self.system0._XX_R.keys()", "self.system1._XX_R", "self.system1._XX_R.keys()", "self.system0._XX_R.items()",
+                                           "self.system1._XX_R.items()"),
                      "the loop runs over every (common) matrix key", f, lp_ if isinstance(lp_, ast.For) else st_,
                      f"matrices are interpolated over `{it}`, not over every key of the (equalised) _XX_R dictionaries")
             key = lp_.target.id if isinstance(lp_.target, ast.Name) else (norm(lp_.target.elts[0]) if isinstance(lp_.target, ast.Tuple) else None)
@@ -336,6 +345,19 @@ def run(ctx) -> None:
             r3.check(tch == sch and s.value.args and is_name(s.value.args[0], sf.node.args.args[1].arg),
                      f"system_{tch} comes from the {tch} interpolator at the same alpha", sf, s,
                      f"`{norm1(s.targets[0])}` is produced by `{norm1(s.value)}`")
+    # the number of spin channels of the interpolated system follows what was interpolated: a separately interpolated down channel ⇒ nspin 2,
+    # down aliased to up ⇒ nspin 1 (the object is a deep copy of system0 and would otherwise keep system0's nspin)
+    SFS = Sem(idx, sf)
+    downs = [s_ for s_ in stmts(sf.node) if isinstance(s_, ast.Assign) and isinstance(s_.targets[0], ast.Attribute) and s_.targets[0].attr == "system_down"]
+    nsp = [s_ for s_ in stmts(sf.node) if isinstance(s_, ast.Assign) and isinstance(s_.targets[0], ast.Attribute) and s_.targets[0].attr == "nspin"]
+    r3.expect(bool(downs), "system_down assignments located", sf, sf.node, "SystemInterpolatorSOC.interpolate: no assignment to <new>.system_down found")
+    for d_ in downs:
+        cds_d = sorted((t_, p_) for t_, p_, _ in SFS.conditions(d_, resolve=False))
+        want = 1 if (isinstance(d_.value, ast.Attribute) and d_.value.attr == "system_up") else 2
+        same = [n_ for n_ in nsp if sorted((t_, p_) for t_, p_, _ in SFS.conditions(n_, resolve=False)) == cds_d and norm(n_.targets[0].value) == norm(d_.targets[0].value)]
+        r3.check(len(same) == 1 and const_of(same[0].value) == want, f"nspin = {want} where `{norm1(d_, 60)}`", sf, d_,
+                 f"`{norm1(d_, 70)}` is not accompanied by `{norm1(d_.targets[0].value)}.nspin = {want}`: the interpolated system keeps the nspin of the "
+                 f"deep-copied system0, so with nspin (1, 2) endpoints the down channel is interpolated but ignored (or the reverse)", stmt=f"nspin {want}")
     r3.check("super().interpolate(" in norm(sf.node), "SOC interpolate extends the base interpolate (same centre/matrix rules)",
              sf, sf.node, "SystemInterpolatorSOC.interpolate no longer calls the base implementation", stmt="super().interpolate")
 
@@ -347,6 +369,7 @@ _FIX = ("        new_system.clear_cached_wcc()\n"
         "                                   shifts_left_red=new_system.wannier_centers_red)\n"
         "        new_system.clear_cached_R()\n")
 SELFTEST = [
+    V("nspin of the interpolated SOC system not updated (seeded C26-m4)", IP, "            new_system.nspin = 2\n", "", "fire", "R26.3"),
     V("centres written, nothing refreshed (original defect)", IP, _FIX, "", "fire", "R26.2"),
     V("cache cleared but rvec not rebuilt", IP, _FIX, "        new_system.clear_cached_wcc()\n", "fire", "R26.2"),
     V("rvec rebuilt before the cache is cleared", IP, _FIX,
